@@ -41,12 +41,13 @@ Definition is_lit (ty : ttype) : bool :=
   end.
 Definition lit_ok (t : token) : Prop :=
   is_lit (ttype_of t) = true -> literal_value fparse (ttype_of t) (tval t) <> None.
-Definition nonEOF (t : token) : Prop := ttype_of t <> TEOF /\ lit_ok t.
+Definition nonEOF (t : token) : Prop := ttype_of t <> TEOF /\ ttype_of t <> TError /\ lit_ok t.
 Definition plain (ty : ttype) : bool :=
   match ty with TDelimiter | TEOL | TType => true | _ => false end.
 Lemma nonEOF_plain t : plain (ttype_of t) = true -> nonEOF t.
 Proof.
-  intro H. split.
+  intro H. split; [|split].
+  - intro E. rewrite E in H. discriminate.
   - intro E. rewrite E in H. discriminate.
   - intro L. destruct (ttype_of t); discriminate.
 Qed.
@@ -205,7 +206,7 @@ Qed.
 
 (* ---------- parseIntrinsic ---------- *)
 Lemma pif_spec tys : forall t0 s,
-  P s <= 3 -> (forall ty, In ty tys -> ty <> TEOF) -> (tys = [] -> In t0 (stream s)) ->
+  P s <= 3 -> (forall ty, In ty tys -> ty <> TEOF /\ ty <> TError) -> (tys = [] -> In t0 (stream s)) ->
   match parse_intrinsic_from fparse tys (No t0 s) with
   | Yes v t s1 => stream s = t :: stream s1 /\ nonEOF t /\ R s1 <= R s /\ (R s1 = R s \/ P s1 = 0)
   | No t s1 => stream s1 = stream s /\ R s1 <= R s /\ (R s1 = R s \/ P s1 <= 1) /\ In t (stream s)
@@ -214,12 +215,13 @@ Lemma pif_spec tys : forall t0 s,
 Proof.
   induction tys as [|ty r IH]; intros t0 s HP Hty H0; simpl.
   - repeat split; auto.
-  - assert (Hne : ty <> TEOF) by (apply Hty; left; reflexivity).
+  - destruct (Hty ty (or_introl eq_refl)) as [Hne Hne2].
     pose proof (parse_token_spec ty None s HP) as S.
     destruct (parse_token ty None s) as [text t s1|t s1|o]; auto.
     + destruct S as (E & Et & Ex & _ & HR & HD).
       destruct (literal_value fparse ty text) eqn:LV.
       * repeat split; auto.
+        -- congruence.
         -- congruence.
         -- intros _. rewrite Et, <- Ex, LV. discriminate.
       * simpl. rewrite E. left. reflexivity.
@@ -234,7 +236,7 @@ Proof.
       * rewrite <- E. exact IH.
 Qed.
 
-Lemma intrinsic_types_ne : forall ty, In ty intrinsic_types -> ty <> TEOF.
+Lemma intrinsic_types_ne : forall ty, In ty intrinsic_types -> ty <> TEOF /\ ty <> TError.
 Proof. intros ty H. simpl in H. intuition (subst; discriminate). Qed.
 
 Lemma parse_intrinsic_spec s :
